@@ -14,7 +14,8 @@ RULE = (
     "used-exact: executable programs and general native-gate programs (qubits named directly, through alias chains "
     "incl. strided slices, through let-valued indices and macro parameters; loops, nested blocks, busy "
     "prepare/measure gates, idle gates): get_used_qubit_indices(circuit) must equal the reference set exactly "
-    "(both inclusions), and so must get_used_qubit_indices(stmt) for every main-body statement free of busy gates.  "
+    "(both inclusions), and so must get_used_qubit_indices(stmt) for every statement of the main body AT ANY DEPTH "
+    "(blocks, loop bodies, subcircuit bodies) that is free of busy gates.  "
     "parallel-overlap: an executable program in which, with probability 1/2, one overlap is injected into a "
     "parallel block (a gate on a qubit another branch uses, written through a randomly chosen name of that qubit - "
     "register index, alias element, single-qubit alias - or an idle gate on it, which must NOT count): "
@@ -73,11 +74,24 @@ def used_exact(case):
     if got_set != want or extra_regs:
         raise Violation("circuit-used-set", f"got {sorted(got_set)} {extra_regs}, reference {sorted(want)}\n--- program:\n{text}")
     nstm = 0
-    for s_model, s_obj in zip(prog["body"], c.body.statements):
-        if any(x[0] == "sub" or (x[0] == "g" and x[1] in ("prepare_all", "measure_all")) for x in walk([s_model])):
+    mn = {m["name"]: m for m in prog["macros"]}
+
+    def pairs(models, objs):
+        """Every statement of the main body, at any depth, paired with its circuit object."""
+        for s_model, s_obj in zip(models, objs):
+            yield s_model, s_obj
+            if s_model[0] in ("seq", "par"):
+                yield from pairs(s_model[1], s_obj.statements)
+            elif s_model[0] == "loop":
+                yield s_model[2], s_obj.statements
+                yield from pairs(s_model[2][1], s_obj.statements.statements)
+            elif s_model[0] == "sub":
+                yield from pairs(s_model[2], s_obj.statements)
+
+    for s_model, s_obj in pairs(prog["body"], c.body.statements):
+        if any(x[0] == "g" and x[1] in ("prepare_all", "measure_all") for x in walk([s_model])):
             continue
-        mn = {m["name"]: m for m in prog["macros"]}
-        # macros containing busy gates/subcircuits cannot be analysed stand-alone either
+        # macros containing busy gates cannot be analysed stand-alone either
         if any(x[0] == "g" and x[1] in mn and _macro_busy(prog, x[1]) for x in walk([s_model])):
             continue
         w = _used_of_stmt(ref, s_model, n)
@@ -99,7 +113,7 @@ def used_exact(case):
 def _macro_busy(prog, name, seen=None):
     mn = {m["name"]: m for m in prog["macros"]}
     for x in walk([mn[name]["body"]]):
-        if x[0] == "sub" or (x[0] == "g" and x[1] in ("prepare_all", "measure_all")):
+        if x[0] == "g" and x[1] in ("prepare_all", "measure_all"):
             return True
         if x[0] == "g" and x[1] in mn and x[1] != name and _macro_busy(prog, x[1]):
             return True
